@@ -12,10 +12,18 @@ Proof.
   rewrite !app_assoc. apply Permutation_app_tail, Permutation_app_comm.
 Qed.
 
+(* atoms are compared up to conversion (heap = list task, ...) *)
 Ltac perm_find a l :=
   lazymatch l with
-  | a ++ ?y => constr:(Permutation_refl l)
-  | ?b ++ ?t => let H := perm_find a t in constr:(perm_front_step a b _ _ H)
+  | ?h ++ ?y =>
+      let r := match constr:(Set) with
+               | _ => let _ := match goal with _ => unify h a end in constr:(true)
+               | _ => constr:(false)
+               end in
+      lazymatch r with
+      | true => constr:(Permutation_refl l : Permutation l (a ++ y))
+      | false => let H := perm_find a y in constr:(perm_front_step a h _ _ H)
+      end
   end.
 
 Ltac perm_go :=
